@@ -73,6 +73,20 @@ def run(ctx):
                 violations.append(viol(cfg, data, kind, o, 'a write failure stops the run with an I/O error', a['result'], 'err:io')); continue
             if a['stdout'] != base['stdout'][:o]:
                 violations.append(viol(cfg, data, kind, o, 'what reached the output before the write failure is a prefix of the fault-free output', a['stdout'].decode('utf8', 'replace')[:300], base['stdout'][:o].decode('utf8', 'replace')[:300]))
+    # a writer that accepts fewer bytes than it is offered (pipes and terminals do): nothing may be lost or repeated
+    pcases = []
+    for c in list(cases):
+        kind, cfg, data, o = meta[c['id']]
+        if kind != 'free': continue
+        for k in (1, 7):
+            pc = mkcase('P%s_%d' % (c['id'], k), cfg, data); pc['out_chunk'] = k; pcases.append(pc)
+    pimpl = lib.run_harness(pcases)
+    for pc in pcases:
+        base = impl[pc['id'][1:].rsplit('_', 1)[0]]; a = pimpl[pc['id']]; checked += 1
+        if (a['result'], a['stdout'], a['stderr']) != (base['result'], base['stdout'], base['stderr']):
+            v = viol(pc['cfg'], pc['inputs'][0]['data'], 'write', pc['out_chunk'], 'a writer that accepts at most %d bytes per call receives the same bytes (partial writes are completed, nothing lost or repeated)' % pc['out_chunk'],
+                     a['result'] + ' ' + a['stdout'].decode('utf8', 'replace')[:300], base['result'] + ' ' + base['stdout'].decode('utf8', 'replace')[:300])
+            v['partial_writes'] = pc['out_chunk']; violations.append(v)
     # a FILE argument that fails on read (a symbolic link to /proc/self/mem: the first read returns EIO), named directly or
     # found inside a directory argument, between two good files: the run stops with an error under every policy
     fcases = []
@@ -105,6 +119,7 @@ def replay(ctx, r):
     c = {'id': 'r', 'cfg': lib.new_cfg(), 'args': r['args'], 'inputs': [{'data': bytes.fromhex(r['stdin_hex'])}]}
     if r.get('file_fault'):
         c = {'id': 'r', 'cfg': lib.new_cfg(), 'args': r['args'], 'files': True, 'dir': r['file_fault']['dir'], 'inputs': [{'data': b'1 2\n', 'name': 'a_first.json'}], 'links': [['b_bad.json', '/proc/self/mem']]}
+    elif r.get('partial_writes'): c['out_chunk'] = r['partial_writes']
     elif r['fault'] == 'read':
         c['inputs'][0]['fail_at'] = r['offset']
         if r.get('fail_kind'): c['inputs'][0]['fail_kind'] = r['fail_kind']
